@@ -175,16 +175,24 @@ func init() {
 	ctxBg := func(in *Interp, fn *ssa.Function, a []Value) Value { return in.opaqueCtx("background") }
 	intrinsics["context.Background"] = ctxBg
 	intrinsics["context.TODO"] = ctxBg
-	withCancel := func(in *Interp, fn *ssa.Function, a []Value) Value {
+	withTimeout := func(in *Interp, fn *ssa.Function, a []Value) Value {
 		parent := a[0]
 		if p, ok := parent.(Iface); ok && p.T == nil {
 			parent = in.opaqueCtx("background")
 		}
 		return Tuple{parent, Func{Noop: true}}
 	}
-	intrinsics["context.WithCancel"] = withCancel
-	intrinsics["context.WithTimeout"] = withCancel
-	intrinsics["context.WithDeadline"] = withCancel
+	// WithCancel: a child context with its own done channel; the cancel function closes it.
+	// (Cancellation of the parent is not propagated to the child.)
+	intrinsics["context.WithCancel"] = func(in *Interp, fn *ssa.Function, a []Value) Value {
+		in.opaqueSeq++
+		child := Iface{T: opaqueCtxType, V: Opaque{ID: in.opaqueSeq, Kind: "context"}}
+		obj := in.newObj(&chanState{}, nil)
+		in.attrMemo[fmt.Sprintf("ctxdone|%d", in.opaqueSeq)] = ChanV{Obj: obj}
+		return Tuple{child, Func{CancelCh: obj}}
+	}
+	intrinsics["context.WithTimeout"] = withTimeout
+	intrinsics["context.WithDeadline"] = withTimeout
 	intrinsics["context.WithValue"] = func(in *Interp, fn *ssa.Function, a []Value) Value { return a[0] }
 	intrinsics["internal/bytealg.MakeNoZero"] = func(in *Interp, fn *ssa.Function, a []Value) Value {
 		n := a[0].(BV).T
